@@ -9,6 +9,7 @@ CONFIG = {
         "name": "decode", "pkg": "./agreement/", "run": "^TestVerifC41$",
         "files": ["agreement/zz_verif_c40_test.go", "util/verifbounds/reg.go"],
         "util": [("agreement", "agreement")],
+        "search_tier": "quick",   # violation search after a proof / correspondence break: more seeds of the quick mix
         "env": {"quick": {"VERIF_C41_BASES": 1, "VERIF_C41_LAX": 4, "VERIF_C41_BUDGET": 20000},
                 "thorough": {"VERIF_C41_BASES": 12, "VERIF_C41_LAX": 8, "VERIF_C41_BUDGET": 400000}},
         "timeout": {"quick": 900, "thorough": 3000},
